@@ -21,6 +21,10 @@ def main(tier):
     res.merge(histrun.run(PROP, b, core.scaled(400 if quick else 4000), {"qq_fail": 0.35}, ORACLES, salt="qf"))
     # a spawner dies (EOF on its report pipe) with deliveries outstanding: nothing of them may be marked
     res.merge(histrun.run(PROP, b, core.scaled(300 if quick else 3000), {"p_spawner_eof": 0.06, "hold_reports": 0.5}, ORACLES, salt="se"))
+    # a noisy spawner: frames that name no outstanding delivery (unused or out-of-range slots, oversized, empty) between the
+    # honest reports - nothing of them may stick and change what a later honest report means (seed c03-s5; C18 owns the
+    # hostile-input side, here the same histories are judged for lost recipients)
+    res.merge(histrun.run(PROP, b, core.scaled(300 if quick else 3000), {"raw_garbage": 0.15, "hold_reports": 0.5}, ORACLES, salt="rg"))
     # many recipients per message (channel files, envelopes and spawner commands larger than the daemon's 128-, 512- and
     # 1024-byte buffers), reports answered in bursts
     big = {"min_rcpts": 60, "max_rcpts": 140, "max_msgs": 2, "report_burst": 30, "max_quiescent": 2500, "conc": [5, 20, 120],
